@@ -265,6 +265,86 @@ def hyp(case):
                     'assignments_decided_by_the_regularizer': stats.get('reg_decides', 0)}}
 
 
+# ---- HypCluster: public steps and the evaluator (same assignment rule, other entry points) -----------------
+
+def hyp_eval(case):
+  """maximization_step / HypClusterEvaluator.evaluate_clients on every order of the cluster list: each client is
+  evaluated with a cluster of minimal average TRAIN loss (+ regularizer), on its own TEST data, one result per test client."""
+  import fedjax
+  import jax
+  import jax.numpy as jnp
+  from fedjax.algorithms import hyp_cluster as hc
+  lam, bs, buckets = case.get('reg'), case['bs'], case['buckets']
+  key = ('hyp_eval', lam)
+  if key not in _EVAL_CACHE:
+    def logits(p, b):
+      f = b['x'] @ p['w'] + p['b']
+      return jnp.stack([f, -f], -1)
+    model = fedjax.Model(init=lambda rng: algos.jparams(), apply_for_train=lambda p, b, r=None: b['x'] @ p['w'] + p['b'],
+                         apply_for_eval=logits, train_loss=lambda b, o: (o - b['y']) ** 2,
+                         eval_metrics={'acc': fedjax.metrics.Accuracy(), 'ce': fedjax.metrics.CrossEntropyLoss()})
+    reg = systems.half_l2(lam) if lam else None
+    _EVAL_CACHE[key] = (hc.HypClusterEvaluator(model, reg),
+                        fedjax.AverageLossEvaluator(fedjax.model_per_example_loss(model), reg))
+  evaluator, avg = _EVAL_CACHE[key]
+  regv = lambda p: 0.5 * lam * float(sum(np.sum(np.asarray(v, np.float64) ** 2) for v in p.values())) if lam else 0.0
+  pop = algos.population([2, 3, 0, 4, 1], case.get('seed', 0))
+  inits = systems.CLUSTER_INITS + [systems.CLUSTER_INITS[1]]   # a duplicate cluster: ties between clusters
+  hp = systems._php(bs, buckets)
+  evals, outs, keys = 0, set(), []
+  orders = [o for r in (2, 3) for o in itertools.permutations(range(4), r)]
+  if case.get('orders_stride'):
+    orders = orders[case.get('orders_offset', 0)::case['orders_stride']]
+  for order in orders:
+    cl = [algos.nparams(inits[i]) for i in order]
+    jcl = [algos.jparams(inits[i]) for i in order]
+    for tname, tidx in (('all', [0, 1, 2, 3, 4]), ('rev', [4, 3, 1, 0]), ('one', [3])):
+      train = [pop[i] for i in tidx]
+      # test data: other labels than the training data (classification labels for the metrics), listed in another order
+      test = []
+      for cid, ds, _ in reversed(train):
+        ex = dict(ds.raw_examples)
+        ex['x'] = (ex['x'][::-1] * 0.5).astype(np.float32)
+        ex['y'] = (np.arange(len(ds)) % 2).astype(np.int32)
+        test.append((cid, fedjax.ClientDataset(ex)))
+      nc = dict(case, order=list(order), train=tname)
+      losses = {cid: [_avg_loss(p, ds.raw_examples) + regv(p) for p in cl] for cid, ds, _ in train}
+      got_assign = hc.maximization_step(avg, jcl, train, hp)
+      require(set(got_assign) == {c[0] for c in train}, 'maximization_step: one assignment per client', case=nc)
+      for cid, a in got_assign.items():
+        ls = losses[cid]
+        require(0 <= int(a) < len(cl) and ls[int(a)] <= min(ls) + 1e-5 * (1 + abs(min(ls))),
+                'maximization_step assigned client %r to cluster %d whose average loss is not minimal' % (cid, int(a)), ls, int(a), case=nc)
+      res = list(evaluator.evaluate_clients(jcl, train, test, hp))
+      require(sorted(c for c, _ in res) == sorted(c for c, _ in test), 'evaluate_clients: exactly one result per test client',
+              [c for c, _ in test], [c for c, _ in res], case=nc)
+      by = dict(res)
+      for cid, ds in test:
+        ex = ds.raw_examples
+        ls = losses[cid]
+        cands = []
+        for j, p in enumerate(cl):
+          if ls[j] <= min(ls) + 1e-5 * (1 + abs(min(ls))):
+            f = ex['x'].astype(np.float64) @ p['w'] + p['b']
+            lg = np.stack([f, -f], -1)
+            n = len(f)
+            if n == 0:
+              cands.append((0.0, 0.0))
+              continue
+            acc = float(np.mean(np.argmax(lg, -1) == ex['y']))
+            m = lg.max(-1)
+            ce = float(np.mean(m + np.log(np.exp(lg - m[:, None]).sum(-1)) - lg[np.arange(n), ex['y']]))
+            cands.append((acc, ce))
+        g = (float(by[cid]['acc']), float(by[cid]['ce']))
+        require(any(core.close(g[0], c[0]) and core.close(g[1], c[1]) for c in cands),
+                'client %r was not evaluated with a cluster of minimal average training loss (or not on its own test data)' % (cid,),
+                cands, g, case=nc)
+        outs.add(core.digest([round(g[0], 4), round(g[1], 4)]))
+      evals += 1
+      keys.append(['hyp_eval', lam, bs, buckets, list(order), tname])
+  return {'evals': evals, 'states': 0, 'transitions': 0, 'traces': evals, 'outcomes': sorted(outs), 'nontrivial': True, 'keys': keys}
+
+
 # ---- MimeLite ---------------------------------------------------------------------------------------------
 
 def mimelite(case):
@@ -374,7 +454,7 @@ def ignore_grads(case):
   return {'evals': 3, 'nontrivial': 0 < len(nt) < 4, 'outcome': [case['base'], len(nt)]}
 
 
-SUBS = {'agnostic': agnostic, 'apfl': apfl, 'hyp': hyp, 'mimelite': mimelite, 'ignore_grads': ignore_grads}
+SUBS = {'agnostic': agnostic, 'apfl': apfl, 'hyp': hyp, 'mimelite': mimelite, 'ignore_grads': ignore_grads, 'hyp_eval': hyp_eval}
 TIMEOUTS = {k: 3000 for k in SUBS}
 
 
@@ -403,6 +483,8 @@ def plan(ctx):
   ctx.pmap('hyp', [{'clusters': k, 'sopt': so, 'depth': d, 'seed': s} for k in (2, 3) for so in ('sgd', 'mom')] +
            [{'clusters': 3, 'sopt': 'sgd', 'depth': d, 'seed': s, 'reg': lam} for lam in ((0.5, 2.0) if th else (0.5,))] +
            [{'clusters': 2, 'sopt': 'mom', 'depth': 2, 'seed': s, 'backend': be} for be in (('pmap2', 'pmap3') if th else ('pmap2',))], chunk=1)
+  ctx.pmap('hyp_eval', [{'reg': lam, 'bs': bs, 'buckets': bk, 'seed': s, 'orders_stride': 1 if th else 4, 'orders_offset': (bs + bk) % 4}
+                        for lam in (None, 0.5) for bs in (1, 2, 3) for bk in (1, 2) if th or (bs, bk) in ((1, 1), (2, 2), (3, 1))], chunk=1)
   # clip 0.0 / 0: a legal bound (every aggregated update is the zero vector), falsy in Python
   ctx.pmap('mimelite', [{'clip': c, 'base': b, 'depth': d, 'seed': s} for c in (0.125, 1.0, 1e6) for b in ('sgd', 'mom')] +
            [{'clip': c, 'base': 'sgd', 'depth': min(d, 2), 'seed': s} for c in (0.0, 0)], chunk=1)
